@@ -87,7 +87,11 @@ func (o Op) short() string {
 		return fmt.Sprintf("import(id%d,m%d)", o.ID, o.M)
 	case "kget":
 		return fmt.Sprintf("kget(id%d %s)", o.ID, o.Ref)
-	case "screate", "sclose", "reg", "unreg", "mreg", "munreg":
+	case "screate":
+		return fmt.Sprintf("screate(u%d,t%d)", o.U, o.M)
+	case "sget":
+		return fmt.Sprintf("sget(t%d)", o.M)
+	case "sclose", "reg", "unreg", "mreg", "munreg":
 		return fmt.Sprintf("%s(%d)", o.Kind, o.U)
 	case "add":
 		return fmt.Sprintf("add(r%d,m%d)", o.U, o.M)
